@@ -724,4 +724,278 @@ theorem GOk.accept_oneshot {s : St} (h : GOk s) (k : Nat) (cred : Cred) (ids : L
     · simp (config := {decide := true}) [COk, Shape, Gone, release]
     · intro h1; simp [release] at h1
 
+
+
+/-- the alphabet of C17: connect (with good or failing credentials), call, graceful close, abrupt close, server close -/
+def Op.c17 : Op → Bool
+  | .connect _ c => c != .silent
+  | .call _ _ => true
+  | .raw _ _ => false
+  | .gracefulClose _ => true
+  | .abruptClose _ => true
+  | .serverClose => true
+
+/-- a new connection joins the listen queue of a busy one-shot server -/
+theorem GOk.add_backlog {s : St} (h : GOk s) (k : Nat) (cred : Cred) (ids : List Nat) (hcr : cred ≠ .silent)
+    (habs : (s.cli k).phase = .absent) (hcl : s.closedFlag = false) (b : Nat) (hb : s.acceptBusy = some b) :
+    GOk { (s.set k (fresh cred)) with ids := ids } := by
+  obtain ⟨a1, a2, a3, a4, a5, a6, a7, a8, a9, a10, a11, a12⟩ := h
+  have hone := (a7 b hb).1
+  have hbk : b ≠ k := by
+    intro hbk; have := (a7 b hb).2; rw [hbk, habs] at this; cases this
+  have hfree : Free (s.cli k) := by have := (a1 k).2.2; simpa [Shape, habs] using this
+  refine ⟨?_, a2, a3, a4, a5, a6, ?_, ?_, ?_, ?_, a11, ?_⟩
+  · intro j; by_cases hj : j = k
+    · subst hj; simp (config := {decide := true}) [fresh, COk, Shape, Free, hcr, hone, hcl]
+    · simpa [set_cli_ne _ _ _ _ hj] using a1 j
+  · intro b' hb'
+    have : b' = b := by simp [hb] at hb'; exact hb'.symm
+    subst this
+    refine ⟨hone, ?_⟩
+    simpa [set_cli_ne _ _ _ _ hbk] using (a7 b' hb).2
+  · intro _ _ h3; simp [hb] at h3
+  · intro h1 j hj
+    by_cases hjk : j = k
+    · subst hjk; simp [fresh] at hj
+    · exact a9 h1 j (by simpa [set_cli_ne _ _ _ _ hjk] using hj)
+  · intro h1 j hj
+    by_cases hjk : j = k
+    · subst hjk; simp [fresh] at hj
+    · exact a10 h1 j (by simpa [set_cli_ne _ _ _ _ hjk] using hj)
+  · intro h1 i j hi hj
+    by_cases hik : i = k
+    · subst hik; simp [fresh] at hi
+    · by_cases hjk : j = k
+      · subst hjk; simp [fresh] at hj
+      · exact a12 h1 i j (by simpa [set_cli_ne _ _ _ _ hik] using hi) (by simpa [set_cli_ne _ _ _ _ hjk] using hj)
+
+theorem GOk.connect {s : St} (h : GOk s) (k : Nat) (cred : Cred) (hcr : cred ≠ .silent) {s' : St} {o : Obs}
+    (hs : step s (.connect k cred) = .ok (s', o)) : GOk s' := by
+  unfold step at hs
+  by_cases hg : ((s.cli k).phase != .absent || (cred == .bad && !s.cfg.auth)) = true
+  · simp [hg] at hs
+  · simp only [hg, Bool.false_eq_true, if_false] at hs
+    have habs : (s.cli k).phase = .absent := by
+      simp at hg; exact hg.1
+    have hbad : cred = .bad → s.cfg.auth = true := by
+      intro hc; simp [hc] at hg; exact hg.2
+    by_cases hl : s.listening = true
+    · simp only [hl, Bool.not_true, Bool.false_eq_true, if_false, Except.ok.injEq, Prod.mk.injEq] at hs
+      obtain ⟨hs, -⟩ := hs
+      subst hs
+      have hcl : s.closedFlag = false := by
+        cases hcf : s.closedFlag with
+        | false => rfl
+        | true => have := (h.closed hcf).1; simp [hl] at this
+      change GOk (acceptAll (s.ids ++ [k]) { (s.set k (fresh cred)) with ids := s.ids ++ [k] })
+      by_cases hca : canAccept s = true
+      · -- the accept loop is free: only the new connection is waiting, it is taken at once
+        have hbusy : s.acceptBusy = none := by simp [canAccept] at hca; exact hca.2
+        have hres : GOk (acceptOne { (s.set k (fresh cred)) with ids := s.ids ++ [k] } k) := by
+          cases hkind : s.cfg.kind with
+          | threaded => exact h.accept_dedicated k cred _ (Or.inl hkind) hcl habs hcr hbad
+          | forking => exact h.accept_dedicated k cred _ (Or.inr hkind) hcl habs hcr hbad
+          | pool => exact h.accept_pool k cred _ hkind hcl habs hcr hbad
+          | oneshot => exact h.accept_oneshot k cred _ hkind hcl hbusy habs hcr hbad
+        rw [acceptAll_single (s.ids ++ [k]) _ k (by simp) (by exact hca) (by simp [fresh])
+          (by intro j hj; simpa [set_cli_ne _ _ _ _ hj] using h.no_backlog hca j)
+          (fun h1 j => hres.no_backlog h1 j)]
+        exact hres
+      · -- busy (a one-shot server serving its client): the connection waits
+        have hceq : canAccept { (s.set k (fresh cred)) with ids := s.ids ++ [k] } = canAccept s := rfl
+        rw [acceptAll_skip _ _ (by intro h1; rw [hceq] at h1; exact absurd h1 hca)]
+        have ho := h.opn hcl
+        have : s.acceptBusy ≠ none := by
+          intro hn; apply hca; simp [canAccept, ho.1, ho.2.1, ho.2.2.1, hn]
+        obtain ⟨b, hb⟩ := Option.ne_none_iff_exists'.mp this
+        exact h.add_backlog k cred _ hcr habs hcl b hb
+    · have hl' : s.listening = false := by simpa using hl
+      simp [hl'] at hs
+      obtain ⟨hs, -⟩ := hs
+      subst hs; exact h
+
+
+theorem usable_phase {s : St} {k : Nat} (h : usable s k = true) : (s.cli k).phase ≠ .absent := by
+  simp [usable] at h; exact h.1.1.1
+
+theorem GOk.step {s s' : St} {o : Obs} (h : GOk s) (op : Op) (hop : op.c17 = true)
+    (hs : Srv.step s op = .ok (s', o)) : GOk s' := by
+  cases op with
+  | connect k cred => exact h.connect k cred (by simpa [Op.c17] using hop) hs
+  | raw k items => simp [Op.c17] at hop
+  | call k r =>
+    unfold Srv.step at hs
+    by_cases hu : usable s k = true
+    · simp only [hu, Bool.not_true, Bool.false_eq_true, if_false, Except.ok.injEq, Prod.mk.injEq] at hs
+      rw [← hs.1]; exact h.send_req k _ _ r (usable_phase hu)
+    · simp [hu] at hs
+  | gracefulClose k =>
+    unfold Srv.step at hs
+    by_cases hu : usable s k = true
+    · simp only [hu, Bool.not_true, Bool.false_eq_true, if_false, Except.ok.injEq, Prod.mk.injEq] at hs
+      rw [← hs.1]; exact h.send_end k .bye (Or.inl rfl) (usable_phase hu)
+    · simp [hu] at hs
+  | abruptClose k =>
+    unfold Srv.step at hs
+    by_cases hu : ((s.cli k).phase == .absent || !(s.cli k).clientOpen) = true
+    · simp [hu] at hs
+    · simp only [hu, Bool.false_eq_true, if_false, Except.ok.injEq, Prod.mk.injEq] at hs
+      rw [← hs.1]
+      exact h.send_end k .fin (Or.inr rfl) (by simp at hu; exact hu.1)
+  | serverClose =>
+    unfold Srv.step at hs
+    by_cases hk : s.cfg.kind = .pool
+    · obtain ⟨t, ht, hg⟩ := h.poolClose hk
+      simp [hk, ht] at hs
+      rw [← hs.1]; exact hg
+    · simp only [hk, if_false, Except.ok.injEq, Prod.mk.injEq] at hs
+      rw [← hs.1]; exact h.baseClose_nonpool hk
+
+theorem GOk.run {s : St} (h : GOk s) (ops : List Op) (hops : ∀ op ∈ ops, op.c17 = true) : GOk (Srv.run s ops) := by
+  induction ops generalizing s with
+  | nil => exact h
+  | cons op ops ih =>
+    unfold Srv.run
+    cases hs : Srv.step s op with
+    | error e => exact ih h (fun o ho => hops o (by simp [ho]))
+    | ok r =>
+      obtain ⟨s', o⟩ := r
+      exact ih (h.step op (hops op (by simp)) hs) (fun o ho => hops o (by simp [ho]))
+
+
+
+/-! ### the configuration never changes -/
+
+@[simp] theorem baseClose_cfg (s : St) : (baseClose s).cfg = s.cfg := by
+  unfold baseClose; split <;> simp
+@[simp] theorem afterEnd_cfg (s : St) (k : Nat) : (afterEnd s k).cfg = s.cfg := by
+  unfold afterEnd; split <;> simp
+@[simp] theorem applyConsumed_cfg (s : St) (k : Nat) (r : Cli × Nat) : (applyConsumed s k r).cfg = s.cfg := by
+  unfold applyConsumed; split <;> simp
+@[simp] theorem runDedicated_cfg (s : St) (k : Nat) : (runDedicated s k).cfg = s.cfg := by
+  unfold runDedicated; simp
+@[simp] theorem built_cfg (s : St) (k : Nat) : (built s k).cfg = s.cfg := rfl
+@[simp] theorem serveClient_cfg (s : St) (k : Nat) : (serveClient s k).cfg = s.cfg := by
+  unfold serveClient; simp
+@[simp] theorem authServe_cfg (s : St) (k : Nat) : (authServe s k).cfg = s.cfg := by
+  unfold authServe; split
+  · split <;> (try split) <;> simp
+  · simp
+@[simp] theorem poolPlace_cfg (s : St) (k : Nat) (r : Cli × Nat) : (poolPlace s k r).cfg = s.cfg := by
+  unfold poolPlace; split <;> simp
+@[simp] theorem poolServeOne_cfg (s : St) (k : Nat) : (poolServeOne s k).cfg = s.cfg := by
+  unfold poolServeOne; simp
+@[simp] theorem drain_cfg (l : List Nat) (s : St) : (drain l s).cfg = s.cfg := by
+  induction l generalizing s with
+  | nil => rfl
+  | cons a l ih => unfold drain; split <;> simp [ih]
+@[simp] theorem poolWake_cfg (s : St) (k : Nat) : (poolWake s k).cfg = s.cfg := by
+  unfold poolWake; split <;> simp
+@[simp] theorem poolUnblock_cfg (s : St) (k : Nat) : (poolUnblock s k).cfg = s.cfg := by
+  unfold poolUnblock; simp
+@[simp] theorem untrackAll_cfg (s : St) : (untrackAll s).cfg = s.cfg := rfl
+@[simp] theorem poolBuild_cfg (s : St) (k : Nat) : (poolBuild s k).cfg = s.cfg := by
+  unfold poolBuild; simp
+@[simp] theorem poolAccept_cfg (s : St) (k : Nat) : (poolAccept s k).cfg = s.cfg := by
+  unfold poolAccept; split
+  · split <;> (try split) <;> simp
+  · simp
+@[simp] theorem acceptOne_cfg (s : St) (k : Nat) : (acceptOne s k).cfg = s.cfg := by
+  unfold acceptOne; split <;> simp
+@[simp] theorem acceptAll_cfg (l : List Nat) (s : St) : (acceptAll l s).cfg = s.cfg := by
+  induction l generalizing s with
+  | nil => rfl
+  | cons a l ih => unfold acceptAll; split <;> simp [ih]
+@[simp] theorem poolAuthGone_cfg (s : St) (k : Nat) : (poolAuthGone s k).cfg = s.cfg := by
+  unfold poolAuthGone; simp
+@[simp] theorem wake_cfg (s : St) (k : Nat) : (wake s k).cfg = s.cfg := by
+  unfold wake; split <;> (try split) <;> (try split) <;> simp
+@[simp] theorem send_cfg (s : St) (k : Nat) (l : List Item) : (send s k l).cfg = s.cfg := by
+  unfold send; split <;> simp
+
+theorem step_cfg {s s' : St} {o : Obs} (op : Op) (h : step s op = .ok (s', o)) : s'.cfg = s.cfg := by
+  cases op with
+  | serverClose =>
+    simp only [step] at h
+    split at h
+    · cases hp : poolClose s with
+      | none => simp [hp] at h
+      | some t =>
+        simp [hp] at h; obtain ⟨rfl, _⟩ := h
+        unfold poolClose at hp
+        split at hp
+        · simp at hp
+        · simp at hp; subst hp; simp
+    · simp at h; obtain ⟨rfl, _⟩ := h; simp
+  | _ =>
+    simp only [step] at h <;> (repeat' split at h) <;> simp_all <;> (try (obtain ⟨rfl, _⟩ := h; simp))
+
+theorem run_cfg (l : List Op) (s : St) : (run s l).cfg = s.cfg := by
+  induction l generalizing s with
+  | nil => rfl
+  | cons a l ih =>
+    unfold run
+    cases h : step s a with
+    | error e => exact ih s
+    | ok r => obtain ⟨s', o⟩ := r; simp only []; rw [ih s', step_cfg a h]
+
+
+/-! ### vocabulary of the C17 statements -/
+
+/-- configurations: a pool has at least one worker -/
+def Wf (cfg : Cfg) : Prop := cfg.kind = .pool → 0 < cfg.nb
+
+/-- states reachable by sequences of the property's alphabet -/
+def Reach (cfg : Cfg) (s : St) : Prop := ∃ ops : List Op, (∀ op ∈ ops, op.c17 = true) ∧ s = run (init cfg) ops
+
+theorem Reach.ok {cfg : Cfg} {s : St} (hw : Wf cfg) (h : Reach cfg s) : GOk s := by
+  obtain ⟨ops, hops, rfl⟩ := h
+  exact (GOk.init cfg hw).run ops hops
+
+theorem Reach.cfg {cfg : Cfg} {s : St} (h : Reach cfg s) : s.cfg = cfg := by
+  obtain ⟨ops, _, rfl⟩ := h
+  rw [run_cfg]; rfl
+
+/-- the server is finished with client `c`: its socket has been shut down and released (the client observes
+end-of-stream), no table and no descriptor of the server mentions it, and if a service instance had been created for
+it, its connection is closed and `on_disconnect` has run exactly once -/
+def Terminated (c : Cli) : Prop :=
+  c.shut = true ∧ c.srvFd = false ∧ c.child = false ∧ c.tracked = false ∧ c.inFd = false ∧ c.connOpen = false ∧
+  (c.inst ≠ none → c.connHooks = 1 ∧ c.discHooks = 1) ∧ (c.inst = none → c.connHooks = 0 ∧ c.discHooks = 0)
+
+/-- nothing of the server refers to client `k` -/
+def Clean (s : St) (k : Nat) : Prop :=
+  (s.cli k).tracked = false ∧ (s.cli k).inFd = false ∧ (s.cli k).polled = false ∧ (s.cli k).srvFd = false ∧
+  (s.cli k).child = false ∧ (s.cli k).connOpen = false ∧ k ∉ s.queue ∧ k ∉ s.blocked
+
+
+theorem closedFlag_after_close {s s' : St} {o : Obs} (h : step s .serverClose = .ok (s', o)) :
+    s'.closedFlag = true ∧ o = .none := by
+  simp only [step] at h
+  split at h
+  · cases hp : poolClose s with
+    | none => simp [hp] at h
+    | some t =>
+      simp [hp] at h; obtain ⟨rfl, rfl⟩ := h
+      unfold poolClose at hp
+      split at hp
+      · simp at hp
+      · simp at hp; subst hp
+        refine ⟨?_, rfl⟩
+        simp only [baseClose]; split <;> simp [*]
+  · simp at h; obtain ⟨rfl, rfl⟩ := h
+    refine ⟨?_, rfl⟩
+    simp only [baseClose]; split <;> simp [*]
+
+theorem close_succeeds {cfg : Cfg} (hw : Wf cfg) {s : St} (hr : Reach cfg s) :
+    ∃ s', step s .serverClose = .ok (s', .none) := by
+  have hg := hr.ok hw
+  simp only [step]
+  split
+  · rename_i hk
+    obtain ⟨t, ht, _⟩ := hg.poolClose hk
+    exact ⟨t, by simp [ht]⟩
+  · exact ⟨_, rfl⟩
+
+
 end Rpyc.Srv
